@@ -454,6 +454,66 @@ theorem merge_last_wins (ds : List Dict) (pre : Dict) (k : String) (c : Int) (d'
     simp only [Option.bind_some] at h
     exact update_new_last_wins pre k c r d' h
 
+/-! ### collect_env -/
+
+/-- Variables that do not start with `DASK_` are ignored by `collect_env`, wherever they stand. -/
+theorem collect_env_ignores_foreign (inherit : Dict) (pre post : List (String × Cfg)) (name : String) (v : Cfg)
+    (h : envVarName name = none) :
+    collectEnv inherit (pre ++ (name, v) :: post) = collectEnv inherit (pre ++ post) := by
+  unfold collectEnv
+  simp only [List.foldl_append, List.foldl_cons, h]
+
+/-- A single `DASK_…` variable is readable under its lower-cased, dotted name. -/
+theorem collect_env_single (name vn : String) (v : Cfg) (h : envVarName name = some vn) :
+    ∃ cfg record, collectEnv [] [(name, v)] = .ok cfg record ∧ get vn cfg = .ok v := by
+  unfold collectEnv
+  simp only [List.foldl_cons, List.foldl_nil, h, dset, List.map_cons, List.map_nil]
+  unfold setInit applyOps
+  cases ha : assign (splitKey vn) v [] [] true with
+  | none =>
+    -- `_assign` into an empty dict cannot fail unless the key list is empty, which `split` never returns
+    exfalso
+    have hne : splitKey vn ≠ [] := by
+      unfold splitKey Dask.PyStr.split
+      cases hs : Dask.PyStr.splitL '.' vn.toList with
+      | nil =>
+        exfalso
+        revert hs
+        generalize vn.toList = cs
+        induction cs with
+        | nil => simp [Dask.PyStr.splitL]
+        | cons c r ih =>
+          simp only [Dask.PyStr.splitL]
+          cases Dask.PyStr.splitL '.' r with
+          | nil => simp
+          | cons p ps => by_cases hc : c = '.' <;> simp [hc]
+      | cons p ps => simp
+    revert ha
+    generalize splitKey vn = keys at hne
+    -- on a fresh dict every level is an insert
+    have key : ∀ (ks : List String) (path : List String) (rec : Bool), ks ≠ [] → assign ks v [] path rec ≠ none := by
+      intro ks
+      induction ks with
+      | nil => intro _ _ h; exact absurd rfl h
+      | cons k rest ih =>
+        intro path rec _
+        cases rest with
+        | nil => simp [assign]
+        | cons k2 r2 =>
+          simp only [assign, dget, canonicalName, dhas, Option.isSome_none, Bool.false_eq_true, if_false]
+          have := ih (path ++ [k]) false (by simp)
+          cases hh : assign (k2 :: r2) v [] (path ++ [k]) false with
+          | none => exact absurd hh this
+          | some res => simp
+    exact fun ha => key keys [] true hne ha
+  | some res =>
+    obtain ⟨d', r⟩ := res
+    simp only [applyOps]
+    refine ⟨d', [] ++ r, rfl, ?_⟩
+    exact get_after_assign (splitKey vn) v [] d' [] true r ha
+
+example : envVarName "DASK_FOO__BAR_BAZ" = some "foo.bar_baz" ∧ envVarName "HOME" = none := by decide
+
 /-- the hypotheses are satisfiable with a genuinely different spelling -/
 example : Respell "a-b" "a_b" ∧ altName "a-b" ≠ "a-b" := ⟨Or.inr ⟨by decide, by decide⟩, by decide⟩
 
